@@ -269,7 +269,7 @@ func (ir *ifdReader) ParseSubSecTime(t Tag) uint16 {
 func (ir *ifdReader) parseLensInfo(t Tag) LensInfo {
 	if !t.IsEmbedded() {
 		buf, err := ir.readTagValue()
-		if err != nil {
+		if err != nil || len(buf) < 32 {
 			return LensInfo{}
 		}
 		return LensInfo{
@@ -378,7 +378,7 @@ func (ir *ifdReader) ParseDate(t Tag) time.Time {
 			return time.Time{}
 		}
 		// check recieved value
-		if buf[4] == ':' && buf[7] == ':' && buf[10] == ' ' &&
+		if len(buf) >= 19 && buf[4] == ':' && buf[7] == ':' && buf[10] == ' ' &&
 			buf[13] == ':' && buf[16] == ':' {
 			year := parseStrUint(buf[0:4])
 			month := parseStrUint(buf[5:7])
@@ -403,7 +403,7 @@ func (ir *ifdReader) ParseOffsetTime(t Tag) *time.Location {
 		if err != nil {
 			return time.UTC
 		}
-		if buf[3] == ':' {
+		if len(buf) >= 6 && buf[3] == ':' {
 			var offset int
 			offset += int(parseStrUint(buf[1:3])) * hoursToSeconds
 			offset += int(parseStrUint(buf[4:6])) * minutesToSeconds
@@ -507,12 +507,15 @@ func (ir *ifdReader) parseGPSDateStamp(t Tag) time.Time {
 			return time.Time{}
 		}
 		// check recieved value
+		if len(buf) < 10 {
+			return time.Time{}
+		}
 		if buf[4] == ':' && buf[7] == ':' && len(buf) < 12 {
 			return time.Date(int(parseStrUint(buf[0:4])), time.Month(parseStrUint(buf[5:7])), int(parseStrUint(buf[8:10])), 0, 0, 0, 0, time.UTC)
 		}
 		// check recieved value
-		if buf[4] == ':' && buf[7] == ':' && buf[10] == ' ' &&
-			buf[13] == ':' && buf[16] == ':' && len(buf) > 19 {
+		if len(buf) > 19 && buf[4] == ':' && buf[7] == ':' && buf[10] == ' ' &&
+			buf[13] == ':' && buf[16] == ':' {
 			return time.Date(
 				int(parseStrUint(buf[0:4])),
 				time.Month(parseStrUint(buf[5:7])),
